@@ -55,7 +55,7 @@ Definition step_task (w : world) (n : node) : world :=
       let n0 := n <| n_tasks := rest |> in
       match t with
       | TRv rid peer prevote =>
-          match l_rv_send n0 peer prevote with
+          match l_rv_send n0 rid peer prevote with
           | None => set_node w n0
           | Some q => new_call (set_node w n0) (n_id n) peer rid (ReqRV q)
           end
